@@ -31,6 +31,8 @@ func main() {
 		os.Exit(2)
 	}
 	verifhook.EnableSiteHits()
+	core.SiteSnapshot = verifhook.SiteHitsSnapshot
+	core.SiteNamesFn = func() []string { return verifhook.SiteNames }
 	switch os.Args[1] {
 	case "check":
 		fs := flag.NewFlagSet("check", flag.ExitOnError)
